@@ -104,12 +104,18 @@ def collect(ctx: Ctx):
         # the device answers whatever frame the REFERENCE parser finds, reversed
         o = landev.v2_unwrap(data)
         if o["ok"]:
-            loop.call_soon(tr.feed, landev.v2_wrap(o["frame"][::-1], int.from_bytes(o["devid"], "little")))
+            loop.call_later(0.0005, tr.feed, landev.v2_wrap(o["frame"][::-1], int.from_bytes(o["devid"], "little")))       # half a millisecond of latency
     net.on_bytes = spy
 
+    def packet_shaped(n):
+        return b"\x5a\x5a\x01\x11" + n.to_bytes(2, "little") + bytes(rng.randrange(256) for _ in range(n - 6))
+
     async def go():
-        for n in list(range(0, 256, ctx.pick(5, 1))):
+        shaped = {6: packet_shaped(6), 8: packet_shaped(8), 16: packet_shaped(16), 56: packet_shaped(56), 104: landev.v2_wrap(b"\xaa\x02" * 20, 0xC0FFEE), 255: packet_shaped(255)}
+        for n, sh in [(n, False) for n in range(0, 256, ctx.pick(5, 1))] + [(n, True) for n in sorted(shaped)]:
             f = bytes(rng.randrange(256) for _ in range(n))
+            if sh:
+                f = shaped[n]                     # a frame that LOOKS like a packet (start marker, own length in the length field): it is a frame all the same
             devid = rng.choice(BOUNDARY_IDS + [rng.getrandbits(64)])
             l = LAN("10.0.0.1", 6444, devid)
             wire.clear()
